@@ -55,7 +55,7 @@ func floorNP(n int, p float64) int {
 }
 
 func TestEjectionCap(t *testing.T) {
-	hx.Check(t, hx.N{Quick: 3000, Thorough: 20000}, func(t *rapid.T, c *hx.Case) {
+	hx.Check(t, hx.N{Quick: 15000, Thorough: 160000}, func(t *rapid.T, c *hx.Case) {
 		res := fmt.Sprintf("svc-%d", atomic.AddInt64(&caseNo, 1)) // never reused: outlier rules are never cleared (see DESIGN, P20)
 		hx.Reset(hx.Epoch + uint64(rapid.IntRange(0, 999).Draw(t, "t0")))
 		pct := rapid.SampledFrom([]float64{0, 0.1, 0.29, 1.0 / 3, 0.5, 0.57, 0.7, 0.9, 1, -1}).Draw(t, "pct")
